@@ -56,6 +56,8 @@ def gen_plan(prop, run_seed, tier):
             r[1] = [r[1][0] if r[1][0][1] > 0 else r[1][1]]
         spec["arity"] = 1
     pipe.ensure_noncontrol(spec)
+    if w.random() < 0.25:
+        gen.add_space_extra(w, spec)
     n_calls = s.randint(6, 14 if tier == "quick" else 30)
     calls = [dict(view=s.choice(VIEWS), fn=s.choice(FUNCS), sub=s.randrange(2**31)) for _ in range(n_calls)]
     n_holder = w.randint(2, 5) if w.random() < 0.9 else w.choice([33, 40, 65, 70])  # block boundaries of batched helpers
